@@ -231,7 +231,7 @@ pub fn replay_extra(case: &serde_json::Value) -> i32 {
 /// flat vs deep on every token string both accept
 fn string_differential(rep: &mut Report, max_len: usize, tokens: Vec<&'static str>, name: &str) {
     let table = universal_table(PRIO_MAPS[0]);
-    let sw = Sweep { name, tokens, max_len, table: table.clone() };
+    let sw = Sweep { name, tokens, max_len, table: table.clone(), sep: " " };
     sweep_strings(&sw, rep, &|text, _idx, acc| {
         let p = run_pipe(Pipe::P, text);
         let d = run_pipe(Pipe::D, text);
